@@ -118,9 +118,9 @@ def run_check(prop: str, tier: str, seed: int, only=None):
         for kfe in known_for:
             if base_name(ob.name) == kfe["obligation"] or ob.name == kfe["obligation"]:
                 kf = kfe
+                known_hit.setdefault(kfe["id"], []).append((ob.name, st))
         is_bounded = bool(ob.info.get("bounded"))
         if kf is not None:
-            known_hit.setdefault(kf["id"], []).append((ob.name, st))
             continue
         if is_bounded:
             bounded_total += 1
